@@ -790,9 +790,9 @@ static int run_line(char *line)
     /* config_read from a stream over the given bytes (may contain NULs) */
     size_t len;
     char *txt = parse_hs(tok[1], &len);
+    int fds = count_fds();
     FILE *f = fmemopen(txt, len ? len : 1, "r");
     if(!len) { fclose(f); f = fopen("/dev/null", "r"); }
-    int fds = count_fds();
     rec_io = 1;
     int r = config_read(&cfg, f);
     rec_io = 0;
@@ -800,7 +800,7 @@ static int run_line(char *line)
     int cr = fclose(f);
     free(txt);
     cap_report();
-    if(count_fds() != fds - 1 || count_open_tracked() != 0) ev_add("L FDLEAK");
+    if(count_fds() != fds || count_open_tracked() != 0) ev_add("L FDLEAK");
     if(!(pos >= 0 && cr == 0)) ev_add("L STREAMBAD");
     r_int(r);
     return 0;
